@@ -199,7 +199,7 @@ impl GameData {
     /// Parses a path structure and spits out the corresponding category and repository.
     fn parse_repository_category(&self, path: &str) -> Option<(&Repository, Category)> {
         // game paths are case-insensitive, and so are the category and repository they name
-        let path = path.to_lowercase();
+        let path = path.to_ascii_lowercase();
         let tokens = path.split_once('/')?;
 
         // the repository is named by the second path segment, e.g. "bg/ex1/..."
